@@ -164,6 +164,11 @@ func sortStrings(s []string) {
 // filesystem effects; yield: stubs park (simulated run).
 func execCall(h *hCall, root *gtree.Node, jail string, idx int, yield bool, rw *routeWriter, taskID string) *opResult {
 	res := &opResult{}
+	if !yield {
+		// un-simulated call: its map order is a function of the call alone
+		simrt.SeedMaps(mix(hashStr(h.String()), uint64(idx)) | 1)
+		defer simrt.SeedMaps(0)
+	}
 	wr := newSimWriter(noWriterFault, yield)
 	cb := newSimCallback(noCbFault, yield)
 	rd := newSimReader(h.Doc, noReaderFault, yield)
@@ -280,6 +285,8 @@ func runHistory(c *Ctx, name string, calls []*hCall, nTasks int, sim bool, jail 
 			}
 			run.Begin()
 			defer run.End()
+			simrt.SeedMaps(mix(c.Seed, 0x68697374) | 1)
+			defer simrt.SeedMaps(0)
 			d := simfs.NewDisk(filepath.Dir(jail))
 			d.Yield = true
 			simfs.Install(d)
